@@ -62,10 +62,12 @@ func NewRemoteReplicator(
 		replicator: replicator{
 			channel: channel,
 		},
-		cliFct:     cliFct,
-		stateMgr:   stateMgr,
-		isSuspend:  atomic.NewBool(false),
-		suspend:    make(chan struct{}),
+		cliFct:    cliFct,
+		stateMgr:  stateMgr,
+		isSuspend: atomic.NewBool(false),
+		// buffered: the state manager calls the watcher under its lock and must never block in it (the suspended loop
+		// may itself be waiting for that lock in GetLiveNode)
+		suspend:    make(chan struct{}, 1),
 		statistics: metrics.NewStorageRemoteReplicatorStatistics(channel.State.Database, channel.State.ShardID.String()),
 		logger:     logger.GetLogger("Replica", "RemoteReplicator"),
 	}
@@ -87,7 +89,10 @@ func (r *remoteReplicator) handleNodeStateChangeEvent(state models.NodeStateType
 	if state == models.NodeOnline {
 		if r.isSuspend.CompareAndSwap(true, false) {
 			r.logger.Info("notify replicator follower node is online", logger.String("replicator", r.String()))
-			r.suspend <- struct{}{} // notify follower node online
+			select {
+			case r.suspend <- struct{}{}: // notify follower node online
+			default: // a notification is already waiting
+			}
 		}
 	}
 }
